@@ -232,10 +232,18 @@ func allJournalsWithPaths(resolved *include.ResolvedJournal, currentPath string,
 		for path, journal := range resolved.Files {
 			result[path] = journal
 		}
-		if resolved.Primary != nil && currentPath != "" {
-			result[currentPath] = resolved.Primary
+		// the primary journal belongs to the file it was read from: with a
+		// workspace that is the workspace's root journal, not the current file
+		primaryPath := resolved.PrimaryPath
+		if primaryPath == "" {
+			primaryPath = currentPath
 		}
-	} else if currentJournal != nil && currentPath != "" {
+		if resolved.Primary != nil && primaryPath != "" {
+			result[primaryPath] = resolved.Primary
+		}
+	}
+	// the current document is always part of the search, with its editor text
+	if currentJournal != nil && currentPath != "" {
 		result[currentPath] = currentJournal
 	}
 
